@@ -924,7 +924,8 @@ func doCheck(prop *Property, tier string, seed uint64, runsOverride int, only st
 		if hn, _, _ := strings.Cut(g, "/"); !ran[hn] {
 			continue // harness deselected with --harness
 		}
-		if counters[g] == 0 {
+		if counters[g] == 0 && len(newSeen) == 0 {
+			// (with unlisted violations the verdict is exit 1 anyway; crashed batches legitimately leave counters at zero)
 			infra("vacuous batch: counter %s is zero", g)
 		}
 	}
